@@ -145,7 +145,7 @@ package cty
 // clauses are assumed at its call sites, not proved (C03; `ensures[assumed]`), and so is the absence of
 // panics for well-formed operands (`no_panic_assumed`).
 //@ func (cty.Value).Equals
-//@   tags C04
+//@   tags C03 C04
 //@   no_panic_assumed
 //@   requires (and (wf_deep val) (wf_deep other))
 //@   ensures[assumed] (and (is_bool_ty (vty result)) (wf_deep result) (not (is_null result)))
